@@ -275,6 +275,9 @@ def run(ctx: Ctx):
         # validation below reports where.  Not itself a verdict.
         ctx.notes["spec_to_code"]["unreached_sample"] = [str(x) for x in sorted(started_edges - hit, key=str)[:5]]
     ctx.exhaustive = len(hit) == len(started_edges)
+    # the wire layout of the table entry exchanged with the NCP, pinned from the EZSP reference (spec/WireLayout.tla)
+    from . import wirelayout
+    wirelayout.check(ctx, ["EmberMulticastTableEntry"])
 
     # ---- the same initial tables programmed with other non-zero endpoints (an entry is in use iff its endpoint is non-zero)
     for family in ("ember", "sl"):
